@@ -237,7 +237,17 @@ func c02(r *Run) {
 			r.ob("C02.R2:who-recycles:"+siteKey(w, site), "nodes are recycled by the release set, or elsewhere only when not exposed", fn, site, true, releaseSet[name], false)
 			continue
 		}
-		r.guarded("C02.R2:recycle-only-unexposed:"+siteKey(w, site), "outside Release/Close a consumed node is recycled only after seeing that its memory was never handed out (readExposed()==false)", fn, site, callResultAtom(readExposed, false), nil, "guarded by readExposed()==false")
+		// the node that was looked at is the node that is recycled (same value): a test of the head node says nothing about
+		// the nodes behind it
+		recv := callCommon(site).Args[0]
+		sameNodeUnexposed := func(v ssa.Value) (bool, bool) {
+			c, ok := v.(*ssa.Call)
+			if !ok || c.Call.StaticCallee() != readExposed || len(c.Call.Args) == 0 || c.Call.Args[0] != recv {
+				return false, false
+			}
+			return false, true
+		}
+		r.guarded("C02.R2:recycle-only-unexposed:"+siteKey(w, site), "outside Release/Close a consumed node is recycled only after seeing that this node's memory was never handed out (readExposed()==false on the node that is released)", fn, site, sameNodeUnexposed, nil, "guarded by readExposed()==false on the same node")
 	}
 
 	// re-using a node's block in place (node.Reset: offsets to 0, buf truncated) overwrites whatever was handed out from
